@@ -379,7 +379,13 @@ def _check_history(d):
 
         _set_cache(maxsize)
         rng = np.random.default_rng([d["order_seed"], 7])
-        arrays = [build_array(s) for _, s in fam]
+        try:
+            arrays = [build_array(s) for _, s in fam]
+            fresh = [build_array(s) for _, s in fam]
+        except Exception as e:  # noqa: BLE001
+            # the same specs were built without error when the cache was off
+            add("C15.history_independent", f"building the operands (incl. their preparatory fuse) raised {type(e).__name__}: {e} with maxsize {maxsize}, not with the cache disabled", history="build")
+            return {"fingerprint": fingerprint_of(d), "nontrivial": True, "failures": fails, "sample": None}
 
         def run(history, order, arrs):
             nonlocal ncalls
@@ -402,7 +408,6 @@ def _check_history(d):
         run("cold, near-miss order", tasks, arrays)
         perm = [tasks[k] for k in rng.permutation(len(tasks))]
         run("warm, same objects, shuffled", perm, arrays)
-        fresh = [build_array(s) for _, s in fam]
         perm2 = [tasks[k] for k in rng.permutation(len(tasks))]
         run("warm, fresh objects, shuffled", perm2, fresh)
         run("warm, reversed near-miss order", tasks[::-1], arrays)
